@@ -220,3 +220,70 @@ def odd_label_host(k):
     c = Circuit()
     c.add_inputs(labs)
     return space.variant(c), labs
+
+
+def live_host(k):
+    """operands ARE the circuit's own (live) input list object; the host has order-sensitive gates over them"""
+    from cirbo.core.circuit import Circuit, gate as G
+
+    c = Circuit()
+    ins = [f'in{i}' for i in range(k)]
+    c.add_inputs(ins)
+    if k >= 2:
+        c.emplace_gate('ord0', G.GT, (ins[0], ins[-1]))
+        c.emplace_gate('ord1', G.LNOT, (ins[-1], ins[0]))
+        c.set_outputs(['ord0', 'ord1'])
+    c = space.variant(c)
+    return c, c.inputs
+
+
+def newlabel_host(k, g=40):
+    """k inputs and g gates whose labels are the size-numbered names a generator might invent next
+    (new_<size>, new_<size+1>, ...)"""
+    from cirbo.core.circuit import Circuit, gate as G
+
+    c = Circuit()
+    ins = [f'in{i}' for i in range(k)]
+    c.add_inputs(ins)
+    for i in range(g):
+        c.emplace_gate(f'new_{k + g + i}', G.IFF if i % 2 else G.NOT, (ins[i % k],))
+    c.set_outputs([ins[0]])
+    return space.variant(c), ins
+
+
+def oriented_host(k, flip):
+    """every asymmetric two-operand gate over every pair of inputs in ONE orientation only (a generator that looks
+    for an existing gate must not take LT(b, a) for LT(a, b))"""
+    from cirbo.core.circuit import Circuit, gate as G
+
+    c = Circuit()
+    ins = [f'in{i}' for i in range(k)]
+    c.add_inputs(ins)
+    cnt = 0
+    for i in range(k):
+        for j in range(i + 1, k):
+            a, b = (ins[j], ins[i]) if flip else (ins[i], ins[j])
+            for t in ('GT', 'LT', 'GEQ', 'LEQ', 'LNOT', 'RNOT', 'LIFF', 'RIFF'):
+                c.emplace_gate(f'o{cnt}', getattr(G, t), (a, b))
+                cnt += 1
+    c.set_outputs([ins[0]])
+    return space.variant(c), ins
+
+
+def repeated_operand_hosts(n, m=0):
+    """(tag, circuit, operand labels): operand bit lists drawn WITH repeats from three inputs and the two constant
+    gates (a sign-extended or shifted operand lists one host gate at several positions)"""
+    import itertools
+
+    from cirbo.core.circuit import Circuit, gate as G
+
+    pool = ['in0', 'in1', 'in2', 'zero', 'one']
+    for tup in itertools.product(range(len(pool)), repeat=n + m):
+        if len(set(tup)) == len(tup) and not ({3, 4} & set(tup)):
+            continue  # plain distinct inputs are covered by the ordinary hosts
+        c = Circuit()
+        c.add_inputs(['in0', 'in1', 'in2'])
+        c.emplace_gate('zero', G.ALWAYS_FALSE, ())
+        c.emplace_gate('one', G.ALWAYS_TRUE, ())
+        c.set_outputs(['in0'])
+        yield 'REP:' + ','.join(pool[i] for i in tup), space.variant(c), [pool[i] for i in tup]
